@@ -823,7 +823,7 @@ fn gen_fixed_programs(seed: u64, tier: Tier, em: &mut Emitter) {
 
 fn gen_random_programs(seed: u64, tier: Tier, em: &mut Emitter) {
     let mut rng = seed_mix(seed, 0xC03_0002);
-    let count = if tier == Tier::Thorough { 12000 } else { 800 };
+    let count = if tier == Tier::Thorough { 6000 } else { 800 };
     let mut kept = 0;
     let mut tries = 0;
     while kept < count && tries < count * 20 {
@@ -1077,7 +1077,7 @@ fn gen_barriers(_seed: u64, tier: Tier, em: &mut Emitter) {
 /// random chains of up to 8 nodes, mostly well typed
 fn gen_random_chains(seed: u64, tier: Tier, em: &mut Emitter) {
     let mut rng = seed_mix(seed, 0xC03_0003);
-    let count = if tier == Tier::Thorough { 15000 } else { 1000 };
+    let count = if tier == Tier::Thorough { 8000 } else { 1000 };
     for _ in 0..count {
         let n = rng.below(9) as usize;
         let mut shape = *rng.pick(&[Shape::U, Shape::KV, Shape::KV, Shape::KV, Shape::KG]);
